@@ -825,9 +825,26 @@ def smt_expr_to_str(  # noqa: C901
         assert len(qfd_var_stack) > idx
         return qfd_var_stack[idx]
     if z3.is_string_value(f):
-        result = '"' + cast(str, f.as_string()).replace('"', r"\"") + '"'
-        result = result.replace(r"\u{}", r"\u{0}")
-        return result
+        # Quotes are escaped as \" (ISLa syntax); backslashes and all characters
+        # outside printable ASCII are written as \u{...} escapes, which both the
+        # ISLa and the SMT-LIB parser read back unambiguously.
+        value = re.sub(
+            r"\\u\{([0-9a-fA-F]*)\}",
+            lambda m: chr(int(m.group(1) or "0", 16)),
+            cast(str, f.as_string()),
+        )
+        return (
+            '"'
+            + "".join(
+                r"\""
+                if char == '"'
+                else char
+                if char != "\\" and 32 <= ord(char) < 127
+                else f"\\u{{{ord(char):x}}}"
+                for char in value
+            )
+            + '"'
+        )
     if z3.is_int_value(f):
         return str(f.as_long())
     if z3.is_true(f):
